@@ -14,8 +14,8 @@ import (
 
 // C12 — shared listeners deliver each connection or datagram exactly once.
 func init() {
-	Register(&Scenario{Name: "c12s", Prop: "C12", MaxSteps: 30000, Run: runC12Stream})
-	Register(&Scenario{Name: "c12p", Prop: "C12", MaxSteps: 30000, Run: runC12Packet})
+	Register(&Scenario{Name: "c12s", LivelockIsViolation: true, Prop: "C12", MaxSteps: 30000, Run: runC12Stream})
+	Register(&Scenario{Name: "c12p", LivelockIsViolation: true, Prop: "C12", MaxSteps: 30000, Run: runC12Packet})
 }
 
 const c12Addr = "127.0.0.1:9000"
